@@ -1665,4 +1665,205 @@ Section S2.
         destruct (Hr1 x Hx) as [H | [q [Hq Hle]]]; [auto|]. right.
         destruct (tool_inputs r e a He Es Hf q Hq) as [_ B]. unfold rnk in *. lia.
   Qed.
+
+  (* every tool application feeds, directly or not, the final one *)
+  Lemma target_spec tg : target wf = Some tg ->
+    In tg (outs wf) /\ forall r, In r (outs wf) -> r <> tg -> consumed wf r = true.
+  Proof.
+    unfold target. destruct (targets wf) as [|t [|t' l]] eqn:E; try discriminate.
+    intros [= <-]. split.
+    - assert (H : In t (targets wf)) by (rewrite E; cbn; auto).
+      unfold targets in H. apply filter_In in H. apply H.
+    - intros r Hr Hne. destruct (consumed wf r) eqn:Ec; [reflexivity|]. exfalso.
+      assert (H : In r (targets wf)).
+      { unfold targets. apply filter_In. split; [exact Hr|]. now rewrite Ec. }
+      rewrite E in H. destruct H as [H | []]. congruence.
+  Qed.
+
+  Lemma all_outs_in_T X st T tg :
+    WS X st T -> target wf = Some tg -> In tg (map fst T) ->
+    forall a, In a apps -> In (a_out a) (map fst T).
+  Proof.
+    intros W Htg HtT.
+    destruct (target_spec tg Htg) as [_ Hcons].
+    assert (H : forall d a, In a apps -> length apps - rnk (a_out a) <= d -> In (a_out a) (map fst T)).
+    { induction d as [|d IHd]; intros a Ha Hd.
+      - destruct (Nat.eq_dec (a_out a) tg) as [-> | Hne]; [exact HtT|]. exfalso.
+        assert (Ho : In (a_out a) (outs wf)) by (unfold outs; now apply in_map).
+        specialize (Hcons _ Ho Hne). unfold consumed in Hcons. apply existsb_exists in Hcons.
+        destruct Hcons as [b [Hb Hm]]. apply memb_In in Hm.
+        destruct (app_parts wf Hwf b Hb) as [Hins [Hle _]]. destruct (Hins _ Hm) as [_ Hlt].
+        unfold rnk, apps in *. lia.
+      - destruct (Nat.eq_dec (a_out a) tg) as [-> | Hne]; [exact HtT|].
+        assert (Ho : In (a_out a) (outs wf)) by (unfold outs; now apply in_map).
+        specialize (Hcons _ Ho Hne). unfold consumed in Hcons. apply existsb_exists in Hcons.
+        destruct Hcons as [b [Hb Hm]]. apply memb_In in Hm.
+        destruct (app_parts wf Hwf b Hb) as [Hins [Hle _]]. destruct (Hins _ Hm) as [_ Hlt].
+        assert (HbT : In (a_out b) (map fst T)).
+        { apply IHd; [exact Hb|]. unfold rnk, apps in *. lia. }
+        apply in_map_iff in HbT. destruct HbT as [[r0 Lb] [E HT]]. cbn in E. subst r0.
+        apply (s_closed _ _ _ W (a_out b) Lb b HT); [|exact Hm].
+        apply find_app_unique; [apply (nd_outs wf Hwf) | exact Hb]. }
+    intros a Ha. apply (H (length apps) a Ha). lia.
+  Qed.
+
+  (* a new source node (graph.py:488 when the input is not used by the tool's expression) *)
+  Lemma WS_add_src X st T id a :
+    WS X st T -> memo_find (0, id) (g_memo st) = None ->
+    In a apps -> In (a_out a) (map fst T) -> In id (own_ids a) ->
+    WS X (set_memo (0, id) (g_next st) (snd (fresh st))) T.
+  Proof.
+    intros W Hmiss Ha HaT Hid.
+    assert (Hinv := s_inv _ _ _ W). destruct Hinv as [I1 [I2 I3]].
+    assert (Hp : mpres (g_memo st) (((0, id), g_next st) :: g_memo st)) by (apply mpres_set; auto).
+    unfold set_memo, fresh. cbn [snd g_tr g_memo g_next].
+    constructor; cbn [g_tr g_memo g_next].
+    - unfold WInv. cbn [g_tr g_memo g_next]. split; [|split].
+      + intros t Ht Hv. specialize (I1 t Ht Hv). lia.
+      + intros k n [[= <- <-] | Hk]; [lia | specialize (I2 k n Hk); lia].
+      + apply minj_set; [exact I3|]. right. intros k' Hk'. apply memo_find_In in Hk'.
+        specialize (I2 _ _ Hk'). lia.
+    - intros r L HT. destruct (s_memo _ _ _ W r L HT) as [e [He Hm]]. exists e. split; [exact He|].
+      apply Hp, Hm.
+    - apply (s_veq _ _ _ W).
+    - apply (s_nd _ _ _ W).
+    - intros x Hx. apply (s_lt _ _ _ W) in Hx. lia.
+    - intros i n [[= <- <-] | Hk].
+      + intros Hx. apply (s_lt _ _ _ W) in Hx. lia.
+      + apply (s_src _ _ _ W i n Hk).
+    - intros r L HT Hr. destruct (s_shape _ _ _ W r L HT Hr) as [a' [es [Hf [Hfe Hts]]]].
+      exists a', es. split; [exact Hf|]. split; [exact Hfe|].
+      eapply tshape_mono; [| |exact Hts].
+      + intros k n Hl. eapply lfm_mono; eauto.
+      + intros i n Hl. unfold anm in *. apply Hp, Hl.
+    - apply (s_leaf _ _ _ W).
+    - apply (s_closed _ _ _ W).
+    - apply (s_ndT _ _ _ W).
+    - intros k n [[= <- <-] | Hk] Htag; [cbn in Htag; lia|]. apply (s_keys _ _ _ W k n Hk Htag).
+    - intros i n [[= <- <-] | Hk]; [|apply (s_own _ _ _ W i n Hk)].
+      right. exists a. auto.
+  Qed.
+
+  Lemma WS_add_edge X st T sn rn :
+    WS X st T -> sn < g_next st ->
+    WS ((sn, p_from, rn) :: X) (upd_tr (add_from_r sn rn) st) T.
+  Proof.
+    intros W Hsn. unfold upd_tr.
+    assert (Hin : forall t, vis t -> (In t (add_from_r sn rn (g_tr st)) <-> t = (sn, p_from, rn) \/ In t (g_tr st))).
+    { intros t Hv. apply Hokr. exact Hv. }
+    constructor; cbn [g_tr g_memo g_next]; try apply W.
+    - destruct (s_inv _ _ _ W) as [I1 [I2 I3]]. unfold WInv. cbn [g_tr g_memo g_next].
+      split; [|split; [exact I2 | exact I3]].
+      intros t Ht Hv. apply (Hin t Hv) in Ht. destruct Ht as [-> | Ht].
+      + exact Hsn.
+      + apply (I1 t Ht Hv).
+    - intros t Hv. rewrite (Hin t Hv), in_app_iff. cbn [In]. rewrite (s_veq _ _ _ W t Hv), in_app_iff.
+      split; [intros [E | [H | H]] | intros [H | [E | H]]]; auto.
+  Qed.
+
+  Definition ind_edge (m : memo) (id : nat) (e : expr) (t : triple) : Prop :=
+    exists sn rn, memo_find (0, id) m = Some sn /\ memo_find (key_of e) m = Some rn /\
+                  t = (sn, p_from, rn).
+
+  Lemma indir_ok : forall ind X st T,
+    WS X st T ->
+    (forall id e, In (id, e) ind -> exists a q, In a apps /\ In (a_out a) (map fst T) /\
+       In id (own_ids a) /\ elookup q ex = Some e /\ In q (map fst T)) ->
+    exists st' X', indir_loop add_from add_from_r false ind st = Some st' /\ WS X' st' T /\
+      mpres (g_memo st) (g_memo st') /\
+      (forall t, In t X' <-> In t X \/ exists id e, In (id, e) ind /\ ind_edge (g_memo st') id e t).
+  Proof.
+    induction ind as [|[id ref] ind IH]; intros X st T W Hind; cbn [indir_loop].
+    - exists st, X. split; [reflexivity|]. split; [exact W|]. split; [apply mpres_refl|].
+      intros t. split; [auto|]. intros [H | [id [e [[] _]]]]. exact H.
+    - destruct (Hind id ref (or_introl eq_refl)) as [a [q [Ha [HaT [Hid [Hq HqT]]]]]].
+      (* 488 *)
+      assert (Hsrc : exists sn st1, add_expr add_from false (ESrc id) None st = Some (sn, st1) /\
+                WS X st1 T /\ mpres (g_memo st) (g_memo st1) /\
+                memo_find (0, id) (g_memo st1) = Some sn /\ sn < g_next st1 /\ g_tr st1 = g_tr st).
+      { cbn [add_expr key_of]. destruct (memo_find (0, id) (g_memo st)) as [sn|] eqn:Em.
+        - exists sn, st. split; [reflexivity|]. split; [exact W|]. split; [apply mpres_refl|].
+          split; [exact Em|]. split; [|reflexivity].
+          destruct (s_inv _ _ _ W) as [_ [I2 _]]. apply (I2 _ _ (memo_find_In _ _ _ Em)).
+        - cbn [fresh fst snd].
+          exists (g_next st), (set_memo (0, id) (g_next st) (snd (fresh st))).
+          split; [reflexivity|]. split; [eapply WS_add_src; eauto|].
+          split; [unfold set_memo; cbn [g_memo snd fresh]; apply mpres_set; auto|].
+          split; [unfold set_memo; cbn [g_memo memo_find]; now rewrite key_eqb_refl|].
+          split; [cbn; lia | reflexivity]. }
+      destruct Hsrc as [sn [st1 [Ea [W1 [Hp1 [Hsn [Hlt Htr]]]]]]].
+      rewrite Ea.
+      (* 489 *)
+      apply in_map_iff in HqT. destruct HqT as [[q0 Lq] [E HT]]. cbn in E. subst q0.
+      destruct (s_memo _ _ _ W1 q Lq HT) as [e' [He' Hrn]]. rewrite Hq in He'. injection He' as <-.
+      rewrite Hrn.
+      (* 490 *)
+      destruct (IH ((sn, p_from, lnode Lq) :: X) (upd_tr (add_from_r sn (lnode Lq)) st1) T)
+        as [st' [X' [El [W' [Hp' HX']]]]].
+      { now apply WS_add_edge. }
+      { intros id' e' Hin. apply Hind. cbn. auto. }
+      exists st', X'. split; [exact El|]. split; [exact W'|].
+      split; [eapply mpres_trans; [exact Hp1 | exact Hp']|].
+      intros t. rewrite HX'. cbn [In]. split.
+      + intros [[<- | H] | [id' [e' [Hin He']]]].
+        * right. exists id, ref. split; [auto|]. exists sn, (lnode Lq).
+          split; [apply Hp', Hsn|]. split; [apply Hp', Hrn | reflexivity].
+        * auto.
+        * right. exists id', e'. auto.
+      + intros [H | [id' [e' [[[= <- <-] | Hin] He']]]].
+        * auto.
+        * left. left. destruct He' as [sn' [rn' [A [B ->]]]].
+          rewrite (Hp' _ _ Hsn) in A. rewrite (Hp' _ _ Hrn) in B. congruence.
+        * right. exists id', e'. auto.
+  Qed.
+
+  Lemma rank_src s : In s srcs -> rnk s = 0.
+  Proof.
+    intros Hs. unfold rnk, rank, wf_fuel. cbn [rk].
+    destruct (find_app wf s) as [a|] eqn:Ef; [|reflexivity]. exfalso.
+    destruct (find_app_some wf s a Ef) as [Ha Eo]. apply (src_not_out wf Hwf s Hs).
+    rewrite <- Eo. unfold outs. now apply in_map.
+  Qed.
+
+  Lemma inputs_ok : forall ss X st T,
+    WS X st T -> (forall s, In s ss -> In s srcs) ->
+    exists ns st' T', inputs_loop add_from false wf ex (wf_fuel wf) ss st = Some (ns, st') /\
+      WS X st' T' /\ incl T T' /\ mpres (g_memo st) (g_memo st') /\
+      (forall s, In s ss -> In s (map fst T')) /\
+      Forall2 (fun s n => memo_find (0, s) (g_memo st') = Some n) ss ns.
+  Proof.
+    induction ss as [|s ss IH]; intros X st T W Hss; cbn [inputs_loop].
+    - exists [], st, T. split; [reflexivity|]. split; [exact W|]. split; [apply incl_refl|].
+      split; [apply mpres_refl|]. split; [intros s []|constructor].
+    - assert (Hs : In s srcs) by (apply Hss; cbn; auto).
+      assert (Hdom : In s (map fst ex)).
+      { eapply elookup_dom. apply (src_expr s Hs). }
+      destruct (w2t_ok (wf_fuel wf) X s st T W Hdom) as [n [st1 [T1 [Ew [W1 [[L [HL Hn]] [Hi1 [_ [Hp1 _]]]]]]]]].
+      { rewrite (rank_src s Hs). unfold wf_fuel. lia. }
+      rewrite Ew.
+      destruct (IH X st1 T1 W1) as [ns [st2 [T2 [El [W2 [Hi2 [Hp2 [Hin2 Hf2]]]]]]]].
+      { intros s' Hs'. apply Hss. cbn. auto. }
+      rewrite El. exists (n :: ns), st2, T2. split; [reflexivity|]. split; [exact W2|].
+      split; [eapply incl_tran; eauto|]. split; [eapply mpres_trans; eauto|]. split.
+      + intros s' [<- | Hs']; [|now apply Hin2]. apply in_map_iff. exists (s, L). split; [reflexivity|].
+        apply Hi2, HL.
+      + constructor; [|exact Hf2]. apply Hp2.
+        destruct (s_memo _ _ _ W1 s L HL) as [e [He Hm]]. rewrite (src_expr s Hs) in He.
+        injection He as <-. cbn [key_of] in Hm. now rewrite Hn in Hm.
+  Qed.
+
+  Lemma result_map_ok m : forall tab,
+    (forall r e, In (r, e) tab -> exists n, memo_find (key_of e) m = Some n) ->
+    exists l, result_map tab m = Some l /\ map fst l = map fst tab /\
+      forall r n, In (r, n) l -> exists e, In (r, e) tab /\ memo_find (key_of e) m = Some n.
+  Proof.
+    induction tab as [|[r e] tab IH]; intros H; cbn [result_map].
+    - exists []. split; [reflexivity|]. split; [reflexivity | intros r n []].
+    - destruct (H r e (or_introl eq_refl)) as [n Hn]. rewrite Hn.
+      destruct IH as [l [El [Ef Hl]]]; [intros r' e' Hin; apply (H r' e'); cbn; auto|].
+      rewrite El. exists ((r, n) :: l). split; [reflexivity|]. split; [cbn; now rewrite Ef|].
+      intros r' n' [[= <- <-] | Hin].
+      + exists e. cbn. auto.
+      + destruct (Hl r' n' Hin) as [e' [A B]]. exists e'. cbn. auto.
+  Qed.
 End S2.
